@@ -64,7 +64,7 @@ def run_scenarios(ctx: Ctx, own: str, scenarios: List[dict]) -> Dict[str, int]:
 
 def run(ctx: Ctx) -> None:
     rng = random.Random(ctx.seed * 7919 + 18)
-    scs = [lf.gen_lookup(rng, 'c18-%d' % k, ctx.thorough) for k in range(ctx.pick(400, 8000))]
+    scs = [lf.gen_lookup(rng, 'c18-%d' % k, ctx.thorough) for k in range(ctx.pick(1500, 8000))]
     run_scenarios(ctx, 'C18', scs)
     ctx.coverage['rule'] = ('cache states = each of SRV/TXT/A/A/AAAA/other-host A absent, fresh, stale or expired-but-unpurged at the '
                             'lookup instant; missing records (also goodbyes, flush bits, re-cased names) arriving at offsets '
